@@ -650,7 +650,7 @@ for _n in ("expired-leaf", "not-yet-valid-leaf", "expired-intermediate", "expire
 # chain faults whose x5c necessarily holds more than one certificate (fido-u2f statements hold exactly one)
 MULTI_CERT_FAULTS = {"proxy-certificate-issued-by-an-end-entity-certificate", "out-of-date-leaf-beside-a-valid-sibling-certificate", "path-length-exceeded", "path-length-exceeded:expired-leaf", "path-length-exceeded:not-yet-valid-leaf",
                      "expired-root:redated-copy-of-the-root-closing-x5c", "impostor-root-clone-closing-x5c"}
-NO_PASSTHROUGH_VARIANT = {"impostor-root-same-name", "proxy-certificate-issued-by-an-end-entity-certificate", "impostor-root-clone-closing-x5c", "impostor-root-same-name:aki-with-issuer-and-serial-only", "impostor-root-same-name:leaf-with-unrecognised-extensions", "attacker-ca-first-genuine-chain-as-intermediates", "self-signed-certificate-over-the-credential-key"}
+NO_PASSTHROUGH_VARIANT = {"out-of-date-leaf-beside-a-valid-sibling-certificate", "impostor-root-same-name", "proxy-certificate-issued-by-an-end-entity-certificate", "impostor-root-clone-closing-x5c", "impostor-root-same-name:aki-with-issuer-and-serial-only", "impostor-root-same-name:leaf-with-unrecognised-extensions", "attacker-ca-first-genuine-chain-as-intermediates", "self-signed-certificate-over-the-credential-key"}
 
 
 def applicable_kinds(fmt):
